@@ -15,7 +15,12 @@ META = {
             "is tied to the code by a differential run inside testing/synctest bubbles (virtual clock) against the real "
             "functions and REST handlers with SQLite-backed blacklist and credentials, comparing verdicts AND the sizes "
             "of TokenCache/BlacklistCache/AuthCache after every operation, and by a model-free oracle (per-token "
-            "issued-with-key/expiry/name and the set of revoked ids kept by the harness).",
+            "issued-with-key/expiry/name and the set of revoked ids kept by the harness). Concurrent histories are "
+            "searched, not proved: a real-time stream runs validations (IsBlacklisted, IsIDBlacklisted, Validate, Unwrap, "
+            "cipher.Validate, router) overlapping Blacklist/Delete/Flush/cache purges - with the lookup parked at its audit "
+            "update behind a held SQLite write lock, in free-running pairs, and in storms - and checks at the quiescent "
+            "point (all goroutines joined) that repeated fresh validations agree with the table: revoked => rejected, "
+            "not revoked => accepted.",
     "note": "trusted: Lean kernel; the correspondence harness; encoding/hex (decides 'unaltered': a hex-case change "
             "is the same token). Crypto enters as the parameter dec with hypothesis AEAD (a string decrypts iff its "
             "bytes are those sealed under the current key) - C27 is about the framing; the harness tests AEAD on every "
@@ -27,7 +32,8 @@ META = {
             "blacklist database (Blacklist is then a documented no-op: the list is always empty). The token key is "
             "fixed while the server runs (ego.server.token.key is in defs.ReadonlySetting; a key change would not "
             "purge TokenCache).",
-    "technique": "Lean 4 proof (invariant over all op lists) + model/implementation correspondence under synctest",
+    "technique": "Lean 4 proof (invariant over all op lists) + model/implementation correspondence under synctest "
+                 "+ concurrent quiescent-point oracle (real goroutines, SQLite write lock held to widen the window)",
     "design_ref": "DESIGN.md §6 C21",
 }
 
@@ -59,25 +65,48 @@ def _run_shards(ctx, shards, timeout):
             results[i] = (124, "timeout: %s" % e)
 
     os.makedirs(os.path.join(ctx.scratch, "tmp"), exist_ok=True)
-    ths = [threading.Thread(target=one, args=(i,)) for i in range(shards)]
+    def conc():
+        # the concurrent stream (zz_verif_c21_conc_test.go): real goroutines, real time, its own databases
+        env = dict(os.environ)
+        env.update({"VERIF_OUT": ctx.out, "VERIF_SEED": str(ctx.seed), "VERIF_TIER": ctx.tier, "GOMAXPROCS": "4",
+                    "TMPDIR": os.path.join(ctx.scratch, "tmp")})
+        try:
+            p = subprocess.run([binp, "-test.run", "^TestVerifC21Conc$", "-test.timeout", "%ds" % timeout],
+                               cwd=os.path.join(ctx.tree, PKG), env=env, stdout=subprocess.PIPE,
+                               stderr=subprocess.STDOUT, text=True, timeout=timeout + 60)
+            results["conc"] = (p.returncode, p.stdout)
+        except subprocess.TimeoutExpired as e:
+            results["conc"] = (124, "timeout: %s" % e)
+
+    def race():
+        # thorough only: the quick-sized concurrent stream under the race detector (Argon2 is ~10x slower there)
+        rc, out = ctx.go_test(PKG, "TestVerifC21Conc", race=True, timeout=timeout,
+                              env={"VERIF_TIER": "quick", "VERIF_C21_SUFFIX": "race", "GOMAXPROCS": "4"})
+        results["race"] = (rc, out)
+
+    ths = [threading.Thread(target=one, args=(i,)) for i in range(shards)] + [threading.Thread(target=conc)]
+    if not ctx.quick:
+        ths.append(threading.Thread(target=race))
     for t in ths:
         t.start()
     for t in ths:
         t.join()
-    for i in sorted(results):
+    for i in sorted(results, key=str):
         rc, out = results[i]
         if rc != 0:
-            ctx.log("shard %d:\n%s" % (i, out[-3000:]))
-            ctx.broken.append("harness TestVerifC21 shard %d failed to run (rc=%d)" % (i, rc))
+            ctx.log("shard %s:\n%s" % (i, out[-3000:]))
+            ctx.broken.append("harness TestVerifC21 shard %s failed to run (rc=%d)" % (i, rc))
 
 
 def run(ctx):
     ctx.trusted += ["encoding/hex (Go stdlib) decides whether a presented text carries the issued bytes",
-                    "translator: none; correspondence harness internal/server/admin/zz_verif_c21_test.go + egodriver C21",
+                    "translator: none; correspondence harness internal/server/admin/zz_verif_c21_test.go + egodriver C21; "
+                    "concurrent stream internal/server/admin/zz_verif_c21_conc_test.go (direct oracle only)",
                     "testing/synctest virtual clock; modernc SQLite as the blacklist / credentials store"]
     ctx.assumptions += ["AEAD: under the current key exactly the byte-identical copies of strings sealed with it decrypt "
                         "(hypothesis of C21_accept_iff; tested on every mutation the harness presents)",
-                        "sequential histories; the token key does not change while the server runs",
+                        "the theorems are about sequential histories (concurrent ones are searched at quiescent points only); "
+                        "the token key does not change while the server runs",
                         "issued strings are fresh (random salt, nonce, uuid)"]
     ctx.lean_audit(required=["C21_accept_iff", "C21_accept_iff_decrypts", "C21_accept_iff_model",
                              "C21_altered_rejected", "C21_revocation_immediate", "C21_unrevoke_restores",
@@ -100,6 +129,16 @@ def run(ctx):
         for k, v in st.get("counters", {}).items():
             counters[k] = counters.get(k, 0) + v
         samples += st.get("samples", [])[:2]
+    # concurrent stream: direct oracle only (no model of interleavings)
+    for name in ["conc"] + ([] if ctx.quick else ["race"]):
+        for f in ctx.read_jsonl("c21_failures.%s.jsonl" % name):
+            ctx.fail(f["class"], f["what"], input=f.get("input", "")[-1500:], got=f.get("got"), want=f.get("want"))
+        st = (ctx.read_jsonl("c21_stats.%s.json" % name) or [{}])[0]
+        if not st.get("counters", {}).get("conc_quiescent_reads"):
+            ctx.broken.append("concurrent stream (%s) made no quiescent reads" % name)
+        for k, v in st.get("counters", {}).items():
+            if name == "conc" or k == "oracle_failures":
+                counters[k] = counters.get(k, 0) + v
     ctx.correspond(cases)
     ctx.coverage.update({
         "evaluations": len(cases),
@@ -109,7 +148,8 @@ def run(ctx):
                 "TokenCache, or within 1 s of its expiry, or of a mutated token string. Histories: fixed corpus + random "
                 "over 2-4 tokens (own/foreign key, named/unnamed/unknown user, lifetimes 45 s..1 h, cache capacity "
                 "1/2/1000, advances landing on expiry and sweeper wake-ups); mutation history: single-byte substitutions "
-                "at every position, deletions, insertions, truncations, swaps",
+                "at every position, deletions, insertions, truncations, swaps. Not counted here: the concurrent stream "
+                "(counters conc_*: parked / free / storm rounds and quiescent-point reads)",
         "samples": samples[:6],
         "counters": counters,
     })
